@@ -118,6 +118,8 @@ pub fn write_evidence(e: EvidenceInput) {
         "steps": e.stats.group("step."),
         "real_vs_stub": e.real_vs_stub,
         "known_findings_reported": e.known_findings,
+        "fixed_findings_replayed": FIXED_REPLAYED.load(std::sync::atomic::Ordering::Relaxed),
+        "fixed_findings_violating_again": FIXED_VIOLATING.load(std::sync::atomic::Ordering::Relaxed),
     });
     if let (Value::Object(c), Value::Object(x)) = (&mut coverage, e.extra) {
         for (k, v) in x {
@@ -169,6 +171,8 @@ pub struct KnownFinding {
     pub id: String,
     pub what: String,
     pub replay: Option<String>,
+    /// every replay file of the entry (`replay` may be a list)
+    pub replays: Vec<String>,
     pub trigger: Vec<String>,
     pub benign: Vec<String>,
     pub class_prefix: String,
@@ -180,6 +184,9 @@ pub struct KnownFinding {
     /// matched against the re-printed text of the root file (C14)
     pub printed_regex: String,
 }
+
+pub static FIXED_REPLAYED: std::sync::atomic::AtomicU64 = std::sync::atomic::AtomicU64::new(0);
+pub static FIXED_VIOLATING: std::sync::atomic::AtomicU64 = std::sync::atomic::AtomicU64::new(0);
 
 pub fn load_known_findings() -> Vec<KnownFinding> {
     // (debugging aid: judge everything as if nothing were listed)
@@ -210,6 +217,11 @@ pub fn load_known_findings() -> Vec<KnownFinding> {
             id: v["id"].as_str().unwrap_or("").to_string(),
             what: v["what"].as_str().unwrap_or("").to_string(),
             replay: v.get("replay").and_then(|x| x.as_str()).map(String::from),
+            replays: match v.get("replay") {
+                Some(Value::String(x)) => vec![x.clone()],
+                Some(Value::Array(a)) => a.iter().filter_map(|x| x.as_str().map(String::from)).collect(),
+                _ => vec![],
+            },
             trigger: strs("trigger"),
             benign: strs("benign"),
             class_prefix: v.get("class_prefix").and_then(|x| x.as_str()).unwrap_or("").to_string(),
